@@ -662,6 +662,100 @@ def layout_rules(fb, R):
         except Unknown as e:
             R.broken('S7 %s: arithmetic not understood (%s)' % (key, e))
 
+
+# ------------------------------------------------------------------------------------------------ committed / written discipline (B5, B6)
+
+def commit_rules(fb, R):
+    """B5: readers see committed data only (every iterator range a Buffer hands out ends at data+committed; add_buffer copies the
+    committed part of its source).  B6: a builder finds its item again after ANY growth of the buffer: its stored offset is relative to
+    the commit point, because Buffer::grow_internal() moves [committed, written) to the front of the new memory and sets committed = 0
+    (rules B3-*), while growth by reallocation keeps committed and changes data()."""
+    from osmlint.c04_layout import Sym, sym_eval, Unknown
+
+    def who(fn, recv):
+        if recv is None:
+            return 'this'
+        rv = fn.root_var(recv)
+        if not rv or rv[0] == 'this':
+            return 'this'
+        return rv[2] if len(rv) > 2 else str(rv[1])
+
+    # B5a
+    n5 = 0
+    for fn in fb.functions:
+        if fn.cls != BUF or fn.is_lambda:
+            continue
+        for c in fn.all_nodes():
+            if c.get('k') != 'construct' or 'ItemIterator' not in c.get('q', '') or len(c.get('args', [])) != 2:
+                continue
+            key = '%s#range' % fn.q
+            try:
+                b, e = sym_eval(fn, c['args'][0], who), sym_eval(fn, c['args'][1], who)
+            except Unknown as ex:
+                R.broken('B5 %s: %s' % (fn.full, ex))
+                continue
+            n5 += 1
+            want_e = Sym({'data(this)': 1, 'committed(this)': 1})
+            rest = b.add(Sym.of('data(this)'), -1)
+            ok_b = rest == Sym() or rest == Sym.of('committed(this)') or (len(rest) == 1 and list(rest.values()) == [1] and str(list(rest)[0]).startswith('var:'))
+            R.check(e == want_e and ok_b, 'B5-readers-see-committed-data-only', key, fn.loc(c['id']),
+                    '%s hands out the range [%s, %s): a range over a buffer must start inside it and end at data + committed, '
+                    'uncommitted (or rolled back) bytes are not part of the content' % (fn.q, b.text(), e.text()))
+    # B5b
+    for fn in fb.fns(BUF + '::add_buffer'):
+        cps = [n for n in fn.all_nodes() if n.get('k') == 'call' and n.get('q') in ('std::copy_n', 'std::memcpy', 'memcpy', 'std::copy')]
+        rss = _calls(fn, {BUF + '::reserve_space'})
+        pn = fn.params[0]['name'] if fn.params else None
+        key = BUF + '::add_buffer#copies-committed-part'
+        try:
+            if len(cps) != 1 or len(rss) != 1 or pn is None or cps[0]['q'] == 'std::copy':
+                raise Unknown('shape of add_buffer')
+            cp = cps[0]
+            src, cnt = (cp['args'][0], cp['args'][1]) if cp['q'] == 'std::copy_n' else (cp['args'][1], cp['args'][2])
+            fs, fc, fr = sym_eval(fn, src, who), sym_eval(fn, cnt, who), sym_eval(fn, rss[0]['args'][0], who)
+            n5 += 1
+            ok = fs == Sym.of('data(%s)' % pn) and fc == Sym.of('committed(%s)' % pn) and fr == fc
+            R.check(ok, 'B5-readers-see-committed-data-only', key, fn.loc(cp['id']),
+                    'add_buffer copies %s bytes from %s into %s reserved bytes: it must copy exactly the committed part of the source buffer'
+                    % (fc.text(), fs.text(), fr.text()))
+        except Unknown as ex:
+            R.broken('B5 add_buffer: %s' % ex)
+    if n5 < 8:
+        R.broken('B5: only %d range/copy sites found in Buffer' % n5)
+
+    # B6
+    def who1(fn, recv):
+        return 'buf'       # a Builder has exactly one buffer (m_buffer / the constructor parameter bound to it)
+    ctors = fb.fns(BLD + '::(ctor)')
+    ips = fb.fns(BLD + '::item_pos')
+    if not ctors or not ips:
+        R.broken('B6: Builder constructor / item_pos() not found')
+        return
+    try:
+        inits = [n for n in ctors[0].all_nodes() if n.get('k') == 'init' and n.get('name') == 'm_item_offset']
+        if len(inits) != 1:
+            # assignment in the body
+            raise Unknown('m_item_offset is not set by a constructor initialiser')
+        f = sym_eval(ctors[0], inits[0]['init'], who1)
+        # reserve_space must not precede the offset computation: initialisers run before the body; check no reserve in init exprs
+        ip = ips[0]
+        rets = [n for n in ip.all_nodes() if n.get('k') == 'return' and 'sub' in n]
+        if len(rets) != 1:
+            raise Unknown('item_pos() is not a single expression')
+        g = sym_eval(ip, rets[0]['sub'], who1, members={'m_item_offset': 'off'})
+        at_ctor = g.subst('off', f)
+        want1 = Sym({'data(buf)': 1, 'written(buf)': 1})
+        after_internal = g.subst('committed(buf)', Sym()).subst('off', f)
+        want2 = Sym({'data(buf)': 1, 'written(buf)': 1, 'committed(buf)': -1})
+        R.check(at_ctor == want1, 'B6-builder-offset-survives-growth', BLD + '#item-at-construction', ip.site,
+                'item_pos() = %s with m_item_offset = %s gives %s at construction; the new item starts at data + written' % (g.text(), f.text(), at_ctor.text()))
+        R.check(after_internal == want2, 'B6-builder-offset-survives-growth', BLD + '#item-after-internal-growth', ip.site,
+                'after Buffer::grow_internal() (uncommitted bytes moved to the front, committed = 0) item_pos() = %s with m_item_offset = %s '
+                'gives %s, but the item now starts at %s: the stored offset must be relative to the commit point'
+                % (g.text(), f.text(), after_internal.text(), want2.text()))
+    except Unknown as ex:
+        R.broken('B6: %s' % ex)
+
 # ------------------------------------------------------------------------------------------------ purge_removed
 
 def purge_rules(fb, R):
@@ -844,6 +938,7 @@ def all_rules(fb, R):
     buffer_rules(fb, R)
     size_rules(fb, R)
     layout_rules(fb, R)
+    commit_rules(fb, R)
     purge_rules(fb, R)
     witness_rules(fb, R)
 
@@ -879,6 +974,8 @@ def run(ctx):
     R.expect('S4-reserved-object-accounted', 3)
     R.expect('S4-reserved-bytes-accounted', 2)
     R.expect('S7-user-area-matches-reader-layout', 5)
+    R.expect('B5-readers-see-committed-data-only', 7)
+    R.expect('B6-builder-offset-survives-growth', 2)
     R.expect('S5-destructor-pads', 4)
     R.expect('S5-variable-member-padded', 2)
     R.expect('P1-purge-moves-items', 2)
